@@ -35,7 +35,7 @@ D_FUT = "Tue, 01 Jan 2030 00:01:30 GMT"
 D_9999 = "Fri, 31 Dec 9999 23:59:59 GMT"
 DATES = {D_PAST: 0.0, D_NOW: 0.0, D_FUT: 90.0, D_9999: None}
 TOKENS = ["", " ", "\t", "0", "1", "7", "120", "9" * 308, "9" * 309, "9" * 4300, "9" * 4301, "+",
-          "-", "_", ".", "e", "x", "٣", "\x00", D_PAST, D_NOW, D_FUT, D_9999, "Mon, ",
+          "-", "_", ".", "e", "x", "٣", "²", "\x00", D_PAST, D_NOW, D_FUT, D_9999, "Mon, ",
           "01 Jan 2035 ", "00:00:00 ", "GMT", "+0000", "+9999", "+99999999999999"]
 NONSTR = [None, 5, 5.5, True, False, 10 ** 400, -(10 ** 400), math.nan, math.inf, -math.inf, -3,
           0, b"5", ["5"], (5,), {"a": 1}, "OBJ"]
